@@ -15,6 +15,18 @@ Definition when {A} (o : option A) (P : A -> Prop) : Prop :=
    remaining sentences are prefixed with [all:] so that they are skipped when no goal is left *)
 Ltac none_ok := try exact I.
 
+(* semantic comparison of linear integer tests: every comparison is turned into its
+   specification and the goal closed by lia, whatever the shape of the boolean expression *)
+Ltac bool_cases :=
+  repeat match goal with
+  | |- context [Z.gtb ?a ?b] => rewrite (Z.gtb_ltb a b)
+  | |- context [Z.geb ?a ?b] => rewrite (Z.geb_leb a b)
+  | |- context [Z.leb ?a ?b] => destruct (Z.leb_spec a b)
+  | |- context [Z.ltb ?a ?b] => destruct (Z.ltb_spec a b)
+  | |- context [Z.eqb ?a ?b] => destruct (Z.eqb_spec a b)
+  | |- context [Nat.ltb ?a ?b] => destruct (Nat.ltb_spec a b)
+  end; cbn [negb andb orb]; try reflexivity; try lia.
+
 (* Join: the four cases, in order *)
 Theorem genok_join_cases : when gen_join_cases (fun t => t = map case_tuple join_cases).
 Proof. none_ok. all: reflexivity. Qed.
@@ -25,7 +37,7 @@ Theorem genok_join_first_half : when gen_join_first_half (fun g =>
 Proof.
   none_ok.
   all: cbn [when gen_join_first_half]; intros f n; change 2 with (Z.of_nat 2); rewrite <- Nat2Z.inj_div.
-  all: destruct (Nat.ltb_spec f (n / 2)); [apply Z.ltb_lt|apply Z.ltb_ge]; lia.
+  all: generalize (Nat.div n 2); intros h; bool_cases.
 Qed.
 
 (* compact: a segment is kept iff its line has more than one point *)
@@ -33,8 +45,7 @@ Theorem genok_compact_skip : when gen_compact_skip (fun g =>
   forall n : nat, negb (g (Z.of_nat n)) = Nat.ltb 1 n).
 Proof.
   none_ok.
-  all: cbn [when gen_compact_skip]; intros n.
-  all: destruct (Nat.ltb_spec 1 n); destruct (Z.leb_spec (Z.of_nat n) 1); simpl; try reflexivity; lia.
+  all: cbn [when gen_compact_skip]; intros n; bool_cases.
 Qed.
 
 (* MultiSegment.Orientation: the shoelace term with the first point as offset, and the sign test *)
